@@ -7,8 +7,11 @@ verus! {
 //@include types_error.rs
 //@include types_tokens.rs
 
-// R7 stand-in for lsp_types::ParameterInformation: get_active_param only asks whether the slice is empty.
-pub struct ParameterInformation { pub opaque: u8 }
+// R7 stand-in for lsp_types::ParameterInformation (same public fields; get_active_param only asks whether the slice is empty), Documentation opaque.
+#[verifier::external_body]
+pub struct Documentation { pub opaque: u8 }
+pub enum ParameterLabel { Simple(String), LabelOffsets([u32; 2]) }
+pub struct ParameterInformation { pub label: ParameterLabel, pub documentation: Option<Documentation> }
 
 // ---------- spec vocabulary: the sentence of C14
 /// number of `,` tokens among the first `upto` tokens that start before the cursor
